@@ -1,6 +1,6 @@
 (* Property C12 — directory mode is the conjunction of file comparisons; every file accounted for. *)
 From Coq Require Import NArith Arith Bool List.
-From FC Require Import Model.Compare Model.Cli Proofs.CliP Model.Glob Proofs.GlobP.
+From FC Require Import Model.Compare Model.Cli Proofs.CliP Model.Glob Proofs.GlobP Proofs.GlobBracket2P.
 Import ListNotations.
 
 Theorem C12_categorize_spec : forall consider supported mapped src ref p,
@@ -63,6 +63,27 @@ Theorem C12_filter_is_any_pattern : forall ps path,
   pattern_filter ps path = true <-> exists p, In p ps /\ fnmatch path p = true.
 Proof. exact pattern_filter_spec. Qed.
 Print Assumptions C12_filter_is_any_pattern.
+
+(* a bracket expression between two plain texts ("step_[0-9].vtu", "run[12]/out.csv"): exactly the paths made of the prefix, one
+   admitted character and the suffix *)
+Theorem C12_bracket_range_between : forall l a c r path,
+  plain l = true -> plain r = true -> a <> c_bang -> a <> c_rb -> c <> c_rb -> (a <= c)%N ->
+  (fnmatch path (l ++ c_lb :: [a; c_dash; c] ++ c_rb :: r) = true <-> exists y, path = l ++ y :: r /\ (a <= y <= c)%N).
+Proof. exact bracket_range_between. Qed.
+Print Assumptions C12_bracket_range_between.
+
+Theorem C12_bracket_set_between : forall l x stuff r path,
+  plain l = true -> plain r = true -> x <> c_bang -> x <> c_rb -> ~ In c_rb stuff -> ~ In c_dash (x :: stuff) ->
+  (fnmatch path (l ++ c_lb :: (x :: stuff) ++ c_rb :: r) = true <-> exists y, path = l ++ y :: r /\ In y (x :: stuff)).
+Proof. exact bracket_set_between. Qed.
+Print Assumptions C12_bracket_set_between.
+
+(* "s_[0-9].v" against "s_4.v", "s_a.v", "s_4.", "s_44.v" *)
+Example C12_bracket_between_nonvacuous :
+  let pat := [115; 95; c_lb; 48; c_dash; 57; c_rb; 46; 118]%N in
+  fnmatch [115; 95; 52; 46; 118]%N pat = true /\ fnmatch [115; 95; 97; 46; 118]%N pat = false /\
+  fnmatch [115; 95; 52; 46]%N pat = false /\ fnmatch [115; 95; 52; 52; 46; 118]%N pat = false.
+Proof. exact bracket_between_examples. Qed.
 
 Example C12_nonvacuous :
   let c := categorize (fun p => negb (p =? 5)) (fun p => p <? 3) (fun p => p =? 3) [0;1;3;4;5;6] [1;0;3;4;5;7;8] in
